@@ -21,7 +21,7 @@ CONSTANTS MaxD,        \* behaviour length
 VARIABLES hist,        \* the steps taken so far
           nw,          \* number of words allocated (Fresh)
           fin          \* the behaviour is complete (it is printed exactly once)
-vars == <<slots, net, reg, taint, hist, nw, fin>>
+vars == <<slots, net, reg, taint, procs, hist, nw, fin>>
 
 \* Shapes are templates: placeholders "$1".."$4" are instantiated with fresh
 \* words when Fresh, so that every input string is searchable in the outputs.
@@ -160,7 +160,8 @@ Step1(sl) ==
 StepHop(sl) ==
   \/ On("Hop") /\ \E i \in NonNil(sl) : Take(Step("Hop", i, <<i>>, E, E, E, 0, <<"*">>))
   \* hop to a process that knows only a subset of the families occurring in the value
-  \/ On("HopU") /\ \E i \in NonNil(sl) : \E k \in KnownSets(sl[i]) :
+  \* (in a directed search with two closing hops the last one goes to a knowing process)
+  \/ On("HopU") /\ ~(HopLast >= 2 /\ Len(hist) = MaxD - 1) /\ \E i \in NonNil(sl) : \E k \in KnownSets(sl[i]) :
         Take(Step("Hop", i, <<i>>, E, E, E, 0, SetToSeq(k)))
 
 GInit == Init /\ hist = <<>> /\ nw = 0 /\ fin = FALSE
@@ -168,7 +169,7 @@ GInit == Init /\ hist = <<>> /\ nw = 0 /\ fin = FALSE
 \* a behaviour of MaxD steps is closed by one Finish step, so that it is printed
 \* once (in simulation mode TLC evaluates invariants on every successor it
 \* generates, not only on the one it follows)
-Finish == Len(hist) = MaxD /\ ~fin /\ fin' = TRUE /\ UNCHANGED <<slots, net, reg, taint, hist, nw>>
+Finish == Len(hist) = MaxD /\ ~fin /\ fin' = TRUE /\ UNCHANGED <<slots, net, reg, taint, procs, hist, nw>>
 GNext ==
   \/ /\ Len(hist) < MaxD
      /\ IF HopLast = 0 THEN Step1(slots) \/ StepHop(slots)
